@@ -47,7 +47,7 @@ theorem cfg_tick (σ : State) (a : Ans) : (tick σ a).cfg = σ.cfg := by
   · unfold tickStopSend send; repeat' (first | rfl | split)
   · rfl
   · unfold tickStopRemove; repeat' (first | rfl | split)
-  · unfold tickIntSend; repeat' (first | rfl | split)
+  · rfl
   · rfl
   · rfl
   · unfold tickDrainSend; repeat' (first | rfl | split)
@@ -80,14 +80,7 @@ theorem rb_tick {σ : State} (h : RB σ) (hm : 1 ≤ σ.cfg.maxRetries) (a : Ans
     · exact rb_setPc (rb_send h hm _ a false) _
   · exact rb_same h rfl rfl rfl
   · unfold tickStopRemove; split <;> exact rb_same h rfl rfl rfl
-  · unfold tickIntSend
-    split
-    · exact rb_setPc h _
-    · dsimp only
-      split
-      · exact rb_same (rb_accept h _ true) rfl rfl rfl
-      · exact rb_setPc (rb_enqueue h hm _ false) _
-      · exact rb_setPc (rb_enqueue (rb_accept h _ false) hm _ false) _
+  · exact h
   · exact h
   · exact h
   · unfold tickDrainSend
@@ -173,32 +166,55 @@ theorem rb_ptick {σ : State} (h : RB σ) (a : Ans) : RB (ptick σ a) := by
   · exact rb_same h rfl rfl rfl
   · exact h
 
+theorem cfg_itick (σ : State) (a : Ans) : (itick σ a).cfg = σ.cfg :=
+  itick_ghost State.cfg (fun _ _ => rfl) (fun _ _ _ => rfl) (fun _ _ _ => rfl) (fun _ _ => rfl) σ a
+
+theorem rb_itick {σ : State} (h : RB σ) (hm : 1 ≤ σ.cfg.maxRetries) (a : Ans) : RB (itick σ a) := by
+  unfold itick
+  split
+  · rename_i s ident i o _
+    have h1 := fun b => rb_accept h { kind := .interim, sid := s, ident := ident, cause := 0, inOct := i, outOct := o } b
+    unfold tickIntSend
+    dsimp only
+    split
+    · split
+      · exact rb_same (h1 true) rfl rfl rfl
+      · exact rb_same (h1 true) rfl rfl rfl
+    · exact rb_same (rb_enqueue h hm { kind := .interim, sid := s, ident := ident, cause := 0, inOct := i, outOct := o } false) rfl rfl rfl
+    · exact rb_same (rb_enqueue (h1 false) hm { kind := .interim, sid := s, ident := ident, cause := 0, inOct := i, outOct := o } false) rfl rfl rfl
+  · exact h
+
 theorem cfg_step (σ : State) (op : Op) : (step σ op).cfg = σ.cfg := by
   by_cases ht : ∃ a, op = .tick a
   · obtain ⟨a, e⟩ := ht; subst e; exact cfg_tick σ a
   · by_cases hp : ∃ a, op = .ptick a
     · obtain ⟨a, e⟩ := hp; subst e; exact cfg_ptick σ a
-    · exact step_ghost_simple State.cfg (fun _ _ => rfl) (fun _ _ => rfl) (fun _ _ => rfl)
-        (fun _ _ => rfl) (fun _ _ => rfl) (fun _ _ => rfl) (fun _ _ => rfl) (fun _ _ _ => rfl)
-        (fun _ _ => rfl) (fun _ => rfl) (fun _ _ => rfl) (fun _ _ _ => rfl) σ op
-        (fun a e => ht ⟨a, e⟩) (fun a e => hp ⟨a, e⟩)
+    · by_cases hi : ∃ a, op = .itick a
+      · obtain ⟨a, e⟩ := hi; subst e; exact cfg_itick σ a
+      · exact step_ghost_simple State.cfg (fun _ _ => rfl) (fun _ _ => rfl) (fun _ _ => rfl) (fun _ _ => rfl) (fun _ _ => rfl)
+          (fun _ _ => rfl) (fun _ _ => rfl) (fun _ _ => rfl) (fun _ _ => rfl) (fun _ _ _ => rfl)
+          (fun _ _ => rfl) (fun _ => rfl) (fun _ _ => rfl) (fun _ _ _ => rfl) σ op
+          (fun a e => ht ⟨a, e⟩) (fun a e => hp ⟨a, e⟩) (fun a e => hi ⟨a, e⟩)
 
 theorem rb_step {σ : State} (h : RB σ) (hm : 1 ≤ σ.cfg.maxRetries) (op : Op) : RB (step σ op) := by
   by_cases ht : ∃ a, op = .tick a
   · obtain ⟨a, e⟩ := ht; subst e; exact rb_tick h hm a
   · by_cases hp : ∃ a, op = .ptick a
     · obtain ⟨a, e⟩ := hp; subst e; exact rb_ptick h a
-    · -- calls, crash, restart: the retry map is unchanged or emptied, pending.json unchanged
+    · by_cases hi : ∃ a, op = .itick a
+      · obtain ⟨a, e⟩ := hi; subst e; exact rb_itick h hm a
+      -- calls, crash, restart: the retry map is unchanged or emptied, pending.json unchanged
       have hc := cfg_step σ op
       have hf : (step σ op).dur.pfile = σ.dur.pfile :=
-        step_ghost_simple (fun σ => σ.dur.pfile) (fun _ _ => rfl) (fun _ _ => rfl) (fun _ _ => rfl)
+        step_ghost_simple (fun σ => σ.dur.pfile) (fun _ _ => rfl) (fun _ _ => rfl) (fun _ _ => rfl) (fun _ _ => rfl) (fun _ _ => rfl)
           (fun _ _ => rfl) (fun _ _ => rfl) (fun _ _ => rfl) (fun _ _ => rfl) (fun _ _ _ => rfl)
           (fun _ _ => rfl) (fun _ => rfl) (fun _ _ => rfl) (fun _ _ _ => rfl) σ op
-          (fun a e => ht ⟨a, e⟩) (fun a e => hp ⟨a, e⟩)
+          (fun a e => ht ⟨a, e⟩) (fun a e => hp ⟨a, e⟩) (fun a e => hi ⟨a, e⟩)
       have hpd : ∀ p ∈ (step σ op).vol.pending, p ∈ σ.vol.pending := by
         cases op with
         | tick a => exact absurd ⟨a, rfl⟩ ht
         | ptick a => exact absurd ⟨a, rfl⟩ hp
+        | itick a => exact absurd ⟨a, rfl⟩ hi
         | crash => intro p hp'; simp [step, crash] at hp'
         | crashTorn => intro p hp'; simp [step, crash] at hp'
         | ctr s i o => exact fun p hp' => hp'
@@ -407,7 +423,7 @@ theorem abandoned_step (σ : State) (op : Op) (s : Nat) (h : s ∈ (step σ op).
       · unfold tickStopSend send at h; revert h; repeat' (first | exact id | split)
       · exact h
       · unfold tickStopRemove at h; revert h; repeat' (first | exact id | split)
-      · unfold tickIntSend at h; revert h; repeat' (first | exact id | split)
+      · exact h
       · exact h
       · exact h
       · unfold tickDrainSend at h; revert h; repeat' (first | exact id | split)
@@ -421,11 +437,17 @@ theorem abandoned_step (σ : State) (op : Op) (s : Nat) (h : s ∈ (step σ op).
         · simp only [setPc] at h
           rw [(loadPending_spec _ _ _).abandoned] at h; exact h
       · exact h
-    · have := step_ghost_simple State.abandoned (fun _ _ => rfl) (fun _ _ => rfl) (fun _ _ => rfl)
-        (fun _ _ => rfl) (fun _ _ => rfl) (fun _ _ => rfl) (fun _ _ => rfl) (fun _ _ _ => rfl)
-        (fun _ _ => rfl) (fun _ => rfl) (fun _ _ => rfl) (fun _ _ _ => rfl) σ op
-        (fun a e => ht ⟨a, e⟩) (fun a e => hp ⟨a, e⟩)
-      rw [this] at h; exact h
+    · by_cases hi : ∃ a, op = .itick a
+      · obtain ⟨a, e⟩ := hi
+        subst e
+        simp only [step] at h
+        rw [itick_ghost State.abandoned (fun _ _ => rfl) (fun _ _ _ => rfl) (fun _ _ _ => rfl) (fun _ _ => rfl)] at h
+        exact h
+      · have := step_ghost_simple State.abandoned (fun _ _ => rfl) (fun _ _ => rfl) (fun _ _ => rfl) (fun _ _ => rfl) (fun _ _ => rfl)
+          (fun _ _ => rfl) (fun _ _ => rfl) (fun _ _ => rfl) (fun _ _ => rfl) (fun _ _ _ => rfl)
+          (fun _ _ => rfl) (fun _ => rfl) (fun _ _ => rfl) (fun _ _ _ => rfl) σ op
+          (fun a e => ht ⟨a, e⟩) (fun a e => hp ⟨a, e⟩) (fun a e => hi ⟨a, e⟩)
+        rw [this] at h; exact h
 
 
 /-- In the SAME process lifetime: one retry pass with the server up delivers every record of the retry map
